@@ -21,6 +21,9 @@ import (
 //      "trylock"  SpinLock.TryLock; on success section; Unlock
 //      "take" / "taken"                           OnceGuard
 //      "close" / "wait" / "poll"                  DoneChan (wait = <-Done(), poll = non-blocking receive)
+//      "cwait" / "ctimed" / "csignal"             Cond.Wait / WaitWithTimeout(A ms) / Signal: Cond on its own is not
+//                                                 named by the statement, so these run for panics and hangs only
+//                                                 (the helper keeps signalling until every Wait has returned)
 // Sections never sleep: a SpinLock waiter spins (it is not durably blocked) and
 // a Barrier waiter sits on a sync.Mutex, so a virtual sleep inside a section
 // would wedge the bubble. Gaps are slept outside the sections only. A helper
@@ -51,6 +54,14 @@ func c18SmallInterp(t *testing.T, c c18Case) kit.Verdict {
 		}
 	}
 	horizon += 2
+	condWaits := int32(0)
+	for _, g := range c.Gs {
+		for _, o := range g {
+			if o.K == "cwait" {
+				condWaits++
+			}
+		}
+	}
 	var overlapB, overlapS, overlapG atomic.Int32
 	plainB, plainS, plainG := 0, 0, 0 // deliberately unsynchronised: protected by the primitive under test
 	sectionsB, sectionsS, sectionsG := 0, 0, 0
@@ -61,6 +72,9 @@ func c18SmallInterp(t *testing.T, c c18Case) kit.Verdict {
 		var og syncx.OnceGuard
 		dc := syncx.NewDoneChan()
 		ch0 := dc.Done()
+		cond := syncx.NewCond()
+		var condLeft atomic.Int32
+		condLeft.Store(condWaits)
 		var inB, inS, inG atomic.Int32
 		chanLock := make(c18ChanLock, 1)
 		helperDone := make(chan struct{})
@@ -71,6 +85,13 @@ func c18SmallInterp(t *testing.T, c c18Case) kit.Verdict {
 			dc.Close()
 			ev.Ret = clk.now()
 			log.ev(ev)
+			// every Cond.Wait ends: signal until none is left (a Signal that meets
+			// no waiter is dropped by design); a Wait that no Signal can release
+			// ends the bound and shows as a synctest deadlock
+			for k := 0; condLeft.Load() > 0 && k < 5000; k++ {
+				cond.Signal()
+				time.Sleep(c18ms)
+			}
 			close(helperDone)
 		}()
 		section := func(in *atomic.Int32, overlap *atomic.Int32, plain *int, yields int) (c18Stamp, c18Stamp) {
@@ -175,6 +196,19 @@ func c18SmallInterp(t *testing.T, c c18Case) kit.Verdict {
 					ev.Inv = clk.now()
 					<-dc.Done()
 					ev.Ret = clk.now()
+				case "cwait":
+					ev.Inv = clk.now()
+					cond.Wait()
+					condLeft.Add(-1)
+					ev.Ret = clk.now()
+				case "ctimed":
+					ev.Inv = clk.now()
+					_, ev.OK = cond.WaitWithTimeout(time.Duration(op.A) * c18ms)
+					ev.Ret = clk.now()
+				case "csignal":
+					ev.Inv = clk.now()
+					cond.Signal()
+					ev.Ret = clk.now()
 				case "poll":
 					ev.Inv = clk.now()
 					select {
@@ -202,6 +236,9 @@ func c18SmallInterp(t *testing.T, c c18Case) kit.Verdict {
 		}
 		if ev.Pan && ev.Sub == "take" {
 			v.class("once-guarded-section-panicked")
+		}
+		if ev.Sub == "cwait" {
+			v.class("cond-wait(unspecified:panics-and-hangs-only)")
 		}
 	}
 	// ---- mutual exclusion (Barrier key 0, SpinLock key 1)
@@ -416,6 +453,7 @@ func c18SmallGen(rt *rapid.T) c18Case {
 		{"lock", "lock", "trylock"},
 		{"take", "take", "taken"},
 		{"close", "wait", "wait", "poll", "poll"},
+		{"cwait", "cwait", "ctimed", "csignal", "csignal"},
 	}
 	a := rapid.IntRange(0, len(groups)-1).Draw(rt, "group")
 	kinds := append([]string(nil), groups[a]...)
@@ -427,6 +465,9 @@ func c18SmallGen(rt *rapid.T) c18Case {
 		op := c18Op{K: rapid.SampledFrom(kinds).Draw(rt, "k")}
 		if op.K == "guard" || op.K == "guardfn" || op.K == "lock" || op.K == "trylock" {
 			op.A = rapid.IntRange(0, 3).Draw(rt, "yields")
+		}
+		if op.K == "ctimed" {
+			op.A = rapid.IntRange(0, 5).Draw(rt, "condTimeout")
 		}
 		if (op.K == "guard" || op.K == "guardfn" || op.K == "take") && rapid.IntRange(0, 3).Draw(rt, "sectionPanics") == 0 {
 			op.Key = 1
